@@ -6,7 +6,10 @@ using namespace vt;
 static bool gThorough = false;
 
 // aux: 0 = constructed legal placement, 1 = arbitrary input: legalize once, then again
-static void enumerateAll(const std::function<void(const Spec &)> &f) {
+static void enumerateAll(const std::function<void(const Spec &)> &f0) {
+  // every 53rd instance also scaled by (9001, 11003) and by (30011, 20011): coordinates stay below 2^20 (the property's domain); first scale: cell areas below
+  // 2^31, but width x vertical distance to the rows beyond the neighbouring one exceeds 2^31
+  auto f = withMagnitudes(f0, 53, {{1, 9001, 11003}, {1, 30011, 20011}});
   std::vector<ParamAlt> pm = legalizeParamMenu();
   auto withParams = [&](const Spec &s, bool all) {
     f(s);
